@@ -9,11 +9,28 @@ design     : MPSLifeMC (TLC, exhaustive): architectures x precision tuples x win
              the signature of F05; InvSpecKeys - a cost function is shown the effective in/out features under the
              PyTorch names of its layer type; InvPruneLowers.  Expected-to-fail runs: without the F05 guard, and with
              the pinned MPSLinear.get_modified_vars (F04).
+             Call histories (MaxHist): forward passes in eval / hard / hard-Gumbel mode, loads of other coefficients
+             without a forward pass, export / summary / update_softmax_options; invariants InvCostTheta (in EVERY state
+             whose theta is one-hot the cost is the exact cost of the assignment theta encodes), InvFreshIsSummary (after
+             an arg-max forward pass that assignment is summary()'s), InvFreshDef (theta state = function of the history).
+             1-D grammar (MPSConv1d), a layer object invoked at two call sites (InvPerInvocation: ops_bit charges every
+             call site with its own output shape, params_bit the object once).
 spec->code : selected states rebuilt as real MPS models (harness/mps_gen.py), winners written into the coefficients,
-             one forward pass in eval mode or in training mode with hard sampling, then get_cost(name) for every
-             metric and for a probing CostSpec that records the spec dictionaries it is shown.
-code->spec : TLC (MPSLifeTrace) recomputes the exact cost from the logged architecture and the precisions that
-             summary() reports, and compares; the probe records are compared with the effective feature counts.
+             the history executed (default: one forward pass in eval mode, in training mode with hard sampling, or in
+             training mode with hard Gumbel sampling), then get_cost(name) for every metric in a shuffled order and
+             again in the reverse order, and for a probing CostSpec that records the spec dictionaries it is shown.
+code->spec : TLC (MPSLifeTrace) recomputes the exact cost from the logged architecture and the assignment the SAMPLED
+             coefficients encode (arg-max of theta_alpha, logged with a one-hot bit), requires that assignment to equal
+             summary()'s whenever the history ends "fresh" (MPSLife!ThetaState), and compares; order independence;
+             the probe records are compared with the effective feature counts.
+Claims     : eval mode / hard_softmax training (plain sampler): cost = exact cost of summary()'s assignment.
+             hard Gumbel training: theta is a one-hot of a RANDOM candidate: cost = exact cost of the sampled assignment
+             (read from theta_alpha); equality with summary() is NOT claimed.  Coefficients replaced without a forward
+             pass (load_state_dict): theta is stale, cost = exact cost of the assignment sampled before; after the next
+             forward pass in eval / hard mode the cost is exact for summary() again, whatever preceded.  A model that never
+             ran a hard-sampling forward pass holds a SOFT theta (the conversion samples the new modules in training
+             mode): nothing is claimed.  full_cost=True: without fixed layers the cost is unchanged; with fixed
+             (excluded) conv / linear layers every bit metric raises KeyError (finding F65).
 Tolerance  : costs are logged x100 (rounded); |obs - 100*exact| <= 1 + exact/1000 (float32 accumulation: 1e-5 relative);
              MPIC (rational LUT): |10*obs - milli| <= 10 + 3*layers + milli/50000; probe values x1000, +-1.
 """
@@ -28,8 +45,16 @@ RULE = ("scenario = (2-D grammar architecture, candidate tuples, per-layer or pe
         "architectures. Non-trivial = some quantiser's winner differs from its initial arg-max (the largest precision).")
 ASSUMPTIONS = [
     "the reference is the assignment summary() reports (its agreement with the coefficients is C02 / C10)",
-    "hard-sampling mode = training mode with hard_softmax and no Gumbel noise (with noise the sampled one-hot is random and "
-    "need not be the assignment summary() reports); eval mode with gumbel on or off",
+    "hard-sampling modes: training with hard_softmax and the plain sampler (cost = exact cost of summary()), training with hard Gumbel "
+    "sampling (cost = exact cost of the SAMPLED assignment read from theta_alpha; summary-equality not claimed); eval mode with gumbel on or off",
+    "stale theta (coefficients replaced without a forward pass): cost = exact cost of the assignment theta still encodes; soft theta "
+    "(no hard-sampling forward pass since construction): nothing claimed (counted as trivially accepted)",
+    "histories enumerated by TLC are replayed with the state's selection written first and every later `load` drawing new winners per "
+    "quantiser object; in per-channel scenarios the history action export is replaced by summary (the per-channel exporter QuantList "
+    "is outside C02/C05 and raises for depthwise / Conv1d layers, see report)",
+    "weight sharing (a layer object with two call sites) only with per-layer search; 1-D: no BatchNorm after Conv1d, ne16 not applicable",
+    "full_cost=True with fixed layers (F65) is replayed only while F65 is listed",
+    "no plain conv with exactly one input and one output channel (it satisfies plinio's depthwise pattern: ambiguous cost function, cf. F26)",
     "a metric is required only where it is defined for EVERY candidate pair of a layer (plinio evaluates the cost function on all "
     "pairs): mpic activations/weights in {2,4,8}/{0,2,4,8}; ne16 all activation candidates 8 bit, 3x3 / 1x1 kernels",
     "per-channel (pruning) scenarios of the exhaustive configs: no searchable layer shares a sharing component with the network "
@@ -42,12 +67,17 @@ def run(tier: str, seed: int, replay=None) -> int:
     q = tier == "quick"
     plan = {
         "rule": RULE, "assumptions": ASSUMPTIONS,
-        "design": ([("MPSLifeMC_arch_quick", 270, 3, "arch"), ("MPSLifeMC_tuples_quick", 225, 1, "tuples"),
-                    ("MPSLifeMC_ne16_quick", 200, 2, "ne16"), ("MPSLifeMC_pc_quick", 540, 60, "perchannel")] if q else
+        "design": ([("MPSLifeMC_arch_quick", 210, 3, "arch"), ("MPSLifeMC_tuples_quick", 150, 1, "tuples"),
+                    ("MPSLifeMC_ne16_quick", 140, 2, "ne16"), ("MPSLifeMC_pc_quick", 400, 50, "perchannel"),
+                    ("MPSLifeMC_d1_quick", 120, 3, "arch1d"), ("MPSLifeMC_d1pc_quick", 160, 40, "perchannel1d"),
+                    ("MPSLifeMC_reuse_quick", 105, 3, "reuse"), ("MPSLifeMC_hist_quick", 300, 50, "histories")] if q else
                    [("MPSLifeMC_arch_quick", 0, 0, "arch"), ("MPSLifeMC_arch_thorough", 1500, 3, "arch4"),
                     ("MPSLifeMC_tuples_thorough", 2000, 2, "tuples"), ("MPSLifeMC_ne16_quick", 2000, 2, "ne16"),
                     ("MPSLifeMC_few_thorough", 1200, 3, "few"), ("MPSLifeMC_pc_quick", 4500, 500, "perchannel"),
-                    ("MPSLifeMC_pc_thorough", 5400, 200, "perchannel3")]),
+                    ("MPSLifeMC_pc_thorough", 5400, 200, "perchannel3"), ("MPSLifeMC_d1_quick", 0, 0, "arch1d"),
+                    ("MPSLifeMC_d1_thorough", 1200, 3, "arch1d4"), ("MPSLifeMC_d1pc_quick", 1500, 200, "perchannel1d"),
+                    ("MPSLifeMC_reuse_thorough", 1500, 3, "reuse"), ("MPSLifeMC_reuse1d_thorough", 600, 3, "reuse1d"),
+                    ("MPSLifeMC_hist_thorough", 4000, 120, "histories"), ("MPSLifeMC_histpc_quick", 1500, 300, "histories-pc")]),
         "sanity": ["MPSLifeMC_nokf05", "MPSLifeMC_pinned"],
         "n_random": 70 if q else 700, "random_sels": 2 if q else 3, "max_nodes": 9 if q else 12, "p_pc": 0.5,
         "procs": 8, "tlc_workers": 8,
